@@ -218,6 +218,9 @@ func (l *Gpos6_1) encode() []byte {
 			}
 		}
 	}
+	if mark2ArrayOffset > 0xFFFF {
+		panic("Gpos6_1 too large")
+	}
 	res := make([]byte, 0, total)
 
 	res = append(res,
@@ -256,6 +259,9 @@ func (l *Gpos6_1) encode() []byte {
 			if rec.IsEmpty() {
 				res = append(res, 0, 0)
 				continue
+			}
+			if offs > 0xFFFF {
+				panic("Gpos6_1 too large")
 			}
 			res = append(res,
 				byte(offs>>8), byte(offs),
